@@ -124,11 +124,38 @@ class Run:
         s.res = result_lanes(s.ex, k, f, s.st.ret)
         ptrs = {d['name']: d for d in s.desc if d['kind'] == 'ptr'}
         if ptrs:
-            final = s.st.ext
-            s.res = MemView(s.res, lambda arg, off: z3.Select(final, ptrs[arg]['base'] + z3.BitVecVal(off, 64)))
+            s.res = MemView(s.res, s.final_byte)
+            s.ptrs = ptrs
             s.mem0 = lambda arg, off: z3.Select(s.ex.ext0, ptrs[arg]['base'] + z3.BitVecVal(off, 64))
 
     def inp(s, i): return s.desc[i]
+
+    def final_byte(s, arg, off):
+        """byte of caller memory at ptr(arg)+off after the call, as a last-writer-wins chain over the executor's write log
+        (off: int or BV64 offset relative to the pointer); pure bit-vector term, no array theory"""
+        d = s.ptrs[arg]; rid = d['ptr'].rid
+        offz = z3.BitVecVal(off & ((1 << 64) - 1), 64) if isinstance(off, int) else off
+        r = z3.Select(s.ex.ext0, d['base'] + offz)
+        for (pc, wrid, woff, nb, bits) in s.ex.writes:
+            if wrid != rid:
+                # a store through another pointer argument may alias: compare absolute addresses
+                wb = s.ex.regions[wrid].base
+                for k in range(nb):
+                    c = (wb + bv(woff, 64) + k) == (d['base'] + offz)
+                    c = z3.And(*(pc + [c])) if pc else c
+                    r = z3.If(c, bv(extract(8 * k + 7, 8 * k, bits), 8), r)
+                continue
+            if isinstance(off, int) and is_c(woff):
+                k = off - woff
+                if 0 <= k < nb:
+                    byte = bv(extract(8 * k + 7, 8 * k, bits), 8)
+                    r = z3.If(z3.And(*pc), byte, r) if pc else byte
+                continue
+            for k in range(nb):
+                c = (bv(woff, 64) + k) == offz
+                c = z3.And(*(pc + [c])) if pc else c
+                r = z3.If(c, bv(extract(8 * k + 7, 8 * k, bits), 8), r)
+        return r
 
 
 # ------------------------------------------------------------------ canonical forms for lane de-duplication
